@@ -249,6 +249,10 @@ def main(argv=None):
           % (prop, tier, seed, counters.get("cases", 0), distinct, wall, len(raise_sites)))
     for k, (e, n) in sorted(known_seen.items()):
         print("KNOWN-FINDING: property=%s %s: %s (seen %d times)" % (prop, e["key"], e["what"], n))
+    if counters.get("transparency_mismatches"):
+        print("NOTE monitor transparency: %d of %d re-runs without the walker gave other verdicts (%s)"
+              % (counters["transparency_mismatches"], counters.get("transparency_reruns", 0),
+                 "; ".join(sorted(notes.get("transparency_mismatch", []))[:2])))
     for k, n in sorted(bystanders.items()):
         print("NOTE bystander %s (x%d)" % (k, n))
         if a.show_bystanders and k in bystander_samples:
